@@ -52,6 +52,9 @@ type LCase struct {
 	// StartCrash: the first incarnation panics in its Initialized (1) or Started (2) handler: the restart
 	// runs inside Spawn, on the spawner's thread, before the inbox was ever started
 	StartCrash int `json:"start_crash,omitempty"`
+	// StartCrashInc: which incarnation's handler panics (0 or 1 = the first, 2 = the one produced by the
+	// first restart: a crash during the start-up that follows a crash, with the rest of the batch in the buffer)
+	StartCrashInc int `json:"start_crash_inc,omitempty"`
 }
 
 // pctChooser implements the priority schedule.
@@ -89,18 +92,19 @@ func pctChooser(prio, change []int) vsched.Chooser {
 }
 
 type lworld struct {
-	e          *actor.Engine
-	inc        int
-	log        []string // "inc:Kind[:payload]"
-	panicked   map[string]bool
-	ctxs       []context.Context
-	how        []string
-	early      string // C07: a context was done before the final Stopped / unregistration
-	final      int    // number of final Stopped deliveries (an incarnation with no successor)
-	chain      int
-	startCrash int
-	active     int // invocations of Receive in progress (C02)
-	overlap    string
+	e             *actor.Engine
+	inc           int
+	log           []string // "inc:Kind[:payload]"
+	panicked      map[string]bool
+	ctxs          []context.Context
+	how           []string
+	early         string // C07: a context was done before the final Stopped / unregistration
+	final         int    // number of final Stopped deliveries (an incarnation with no successor)
+	chain         int
+	startCrash    int
+	startCrashInc int
+	active        int // invocations of Receive in progress (C02)
+	overlap       string
 }
 
 type lrcv struct {
@@ -166,7 +170,7 @@ func (r *lrcv) Receive(c *actor.Context) {
 	}
 	w.log = append(w.log, entry)
 	vsched.Yield("recv")
-	if r.inc == 1 && ((w.startCrash == 1 && kind == "Initialized") || (w.startCrash == 2 && kind == "Started")) {
+	if r.inc == max(1, w.startCrashInc) && ((w.startCrash == 1 && kind == "Initialized") || (w.startCrash == 2 && kind == "Started")) {
 		panic("generated crash in " + kind)
 	}
 	if s, ok := c.Message().(string); ok && s[0] == 'P' && !w.panicked[s] {
@@ -199,7 +203,10 @@ func runLifeWith(c LCase, ch vsched.Chooser) (v lverdict, trace []string, steps 
 	if c.StartCrash < 0 || c.StartCrash > 2 {
 		return
 	}
-	w := &lworld{panicked: map[string]bool{}, chain: c.Chain, startCrash: c.StartCrash}
+	if c.StartCrashInc < 0 || c.StartCrashInc > 2 {
+		return
+	}
+	w := &lworld{panicked: map[string]bool{}, chain: c.Chain, startCrash: c.StartCrash, startCrashInc: c.StartCrashInc}
 	s := vsched.New()
 	s.Go("main", func() {
 		e, _ := actor.NewEngine(actor.NewEngineConfig())
@@ -292,8 +299,8 @@ func runLifeWith(c LCase, ch vsched.Chooser) (v lverdict, trace []string, steps 
 			crashes++
 		}
 	}
-	if c.StartCrash > 0 {
-		crashes++
+	if c.StartCrash > 0 && (c.StartCrashInc <= 1 || crashes > 0) {
+		crashes++ // (an incarnation 2 exists only if something crashed before)
 	}
 	reg := w.e.Registry.GetPID("a", "1") != nil
 	if v.c07 == "" {
@@ -391,6 +398,9 @@ func genLife(t *rapid.T) LCase {
 		c.Ops[rapid.IntRange(0, len(c.Ops)-1).Draw(t, "chainpos")] = "chain"
 	}
 	c.StartCrash = rapid.SampledFrom([]int{0, 0, 0, 0, 1, 2}).Draw(t, "start_crash")
+	if c.StartCrash > 0 {
+		c.StartCrashInc = rapid.SampledFrom([]int{1, 1, 2}).Draw(t, "start_crash_inc")
+	}
 	if rapid.IntRange(0, 2).Draw(t, "uniform") == 0 {
 		c.Sched = rapid.SliceOfN(rapid.IntRange(0, 5), 0, 400).Draw(t, "sched")
 	} else {
